@@ -296,7 +296,7 @@ theorem curveInv_refine (p : Params α) {ps : PState α} (lr : LocalResult α) (
     intro it hit
     simp only [List.mem_map] at hit
     obtain ⟨a, ha, rfl⟩ := hit
-    rw [(refineItem_fields s.best lr a).2.1]
+    rw [(refineItem_fields (reportedId ps s) lr a).2.1]
     exact hx s hm a ha
 
 /-- after any sequence of `DoGlobalIteration(k)` / `Solve` calls on a fresh solver -/
